@@ -282,6 +282,22 @@ def build(reg, cfg):
     build_sites(reg, cfg)
 
 
+# native side: the tissue scenario of C06 (real run() against the per-pair rule on all pairs; net contact force zero) also serves C07
+def extra_checks(run):
+    import C06
+    return C06.extra_checks(run, prop='C07')
+
+
+def replay(ob, ins, run):
+    import C06
+    return C06.replay(ob, ins, run)
+
+
+def replay_recorded(data):
+    import C06
+    return C06.replay_recorded(data)
+
+
 EXPLANATION = ("Contracts on the per-pair rule of each of the three compile-time contact models, executed from the AST with the closest-point kernel replaced "
                "by its C05 contract, plus the call sites. Model 1 (node-node coupling, the configuration the repository ships), "
                "contact_node_node_via_coupling::resolve_contact: four kinds of paths (coupling created, no contact, contact not on the forbidden "
